@@ -10,14 +10,17 @@ LEVEL = "exploration"
 RULE = (
     "case = one sorted grid (uniform/arange, dyadic, geometric, random gaps, with repeated elements; 1-200 elements) "
     "with ~150 probe values (elements, exact mid-points, +-1 ulp around both, end points, far outside, random) and one "
-    "digitize_data array of shape (0..50, 1..6) - every 8th/16th case also an array of 4097-20000 values / rows in arbitrary order. Non-trivial sub-case = a probe within 2 ulps of a mid-point or outside "
+    "digitize_data array of shape (0..50, 1..6); every 4th case adds: linspace and nearly-uniform grids with 1e-9 gaps, integer / float32 "
+    "values and data, an integer-typed grid, a one-element grid with integer values, values of 2 and 3 dimensions, grids near the "
+    "largest and smallest floats, gaps above 1e154, subnormal grids, and a re-check that arrays returned earlier are unchanged by "
+    "later snaps - every 8th/16th case also an array of 4097-20000 values / rows in arbitrary order. Non-trivial sub-case = a probe within 2 ulps of a mid-point or outside "
     "the grid range; distinct by (grid hash, value)."
 )
 ASSUMPTIONS = [
     "distance is judged as computed in float64 (|g - v| rounded); an exactly-nearest element is always accepted",
     "values are finite; grids are sorted ascending",
 ]
-REQUIRED_COUNTERS = {"large_arrays": 20, "digitize_same_endpoint_families": 30, "values_checked": 1000, "midpoint_probes": 50, "outside_probes": 50, "digitize_columns": 10}
+REQUIRED_COUNTERS = {"extra_linspace_grid": 50, "extra_integer_values": 50, "extra_values_2d": 50, "extra_grid_near_float_max": 50, "extra_gaps_above_1e154": 50, "extra_earlier_results_rechecked": 50, "large_arrays": 20, "digitize_same_endpoint_families": 30, "values_checked": 1000, "midpoint_probes": 50, "outside_probes": 50, "digitize_columns": 10}
 SHARDS = {"quick": 8, "thorough": 16}
 
 
@@ -101,6 +104,115 @@ def judge(grid, values, result):
     return bad
 
 
+def judge_scaled(grid, values, result):
+    """judge() for grids / values near the ends of the float range: distances are taken after an exact power-of-two scaling."""
+    g, v, r = (np.asarray(x, dtype=np.float64) for x in (grid, values, result))
+    m = max(float(np.max(np.abs(g))), float(np.max(np.abs(v))) if v.size else 0.0)
+    if m > 1e300:
+        return judge_members(g, v, r, 2.0**-12)
+    if 0 < m < 1e-290:
+        return judge_members(g, v, r, 2.0**200)
+    return judge(g, v, r)
+
+
+def judge_members(g, v, r, k):
+    bad = []
+    member = np.isin(r, g)
+    for i in np.where(~member)[0]:
+        bad.append((int(i), f"value {v[i]!r} -> {r[i]!r} is not a grid element"))
+    dist = np.abs(g[None, :] * k - v[:, None] * k)
+    dmin = dist.min(axis=1)
+    got = np.abs(r * k - v * k)
+    for i in np.where(member & ~(got <= dmin))[0]:
+        bad.append((int(i), f"value {v[i]!r} -> {r[i]!r}, a nearer grid element exists"))
+    return bad
+
+
+def extras(rng, out, get_closest, digitize_data):
+    """Input classes beyond float64 vectors on ordinary grids: other dtypes and shapes, grids at the ends of the float range,
+    linspace / nearly-uniform grids, and the stability of results that were returned earlier."""
+    c = out["counters"]
+
+    def cnt(k, n=1):
+        c[k] = c.get(k, 0) + n
+
+    def run(label, grid, values, judge_fn=judge_scaled, wit=None):
+        try:
+            res = np.asarray(get_closest(grid.copy(), values.copy()))
+        except Exception as e:  # noqa: BLE001
+            out["violations"].append({"msg": f"get_closest ({label}) raised {type(e).__name__}: {e}", "witness": {"grid": grid, "values": values}})
+            return None
+        cnt(f"extra_{label}")
+        out["evals"] += int(np.size(values))
+        if res.shape != np.shape(values):
+            out["violations"].append({"msg": f"get_closest ({label}): result shape {res.shape} for values of shape {np.shape(values)}", "witness": {"grid": grid}})
+            return res
+        for k, why in judge_fn(np.asarray(grid, dtype=np.float64), np.asarray(values, dtype=np.float64).ravel(), np.asarray(res, dtype=np.float64).ravel())[:2]:
+            out["violations"].append({"msg": f"get_closest ({label}): " + why, "witness": wit or {"grid": grid, "values_dtype": str(np.asarray(values).dtype), "values_shape": list(np.shape(values))}})
+        return res
+
+    n = int(rng.integers(2, 60))
+    lo, up = sorted(rng.normal(size=2) * 10.0 ** rng.integers(-3, 4))
+    # (a) linspace grids (elements are not lo + k*step bit for bit) and nearly uniform grids with tiny gaps
+    g = np.linspace(lo, up + abs(up) * 0.1 + 1e-9, n)
+    v, _ = probes(g, rng)
+    run("linspace_grid", g, v)
+    g2 = np.cumsum(np.concatenate([[float(rng.normal())], rng.choice([1e-9, 2e-9, 7e-9, 1e-8], size=n - 1)]))
+    v2, _ = probes(g2, rng)
+    run("tiny_uneven_gaps", g2, v2)
+    # (b) other dtypes: integer / float32 values on a float grid, an integer-typed grid with non-integer values
+    gi = np.sort(rng.choice(np.arange(-20, 21), size=min(n, 30), replace=False)).astype(float) * float(rng.choice([1.0, 0.5, 0.3]))
+    vi = rng.integers(-25, 26, size=40)
+    run("integer_values", gi, vi.astype(np.int64))
+    run("float32_values", gi, (rng.normal(size=40) * 8).astype(np.float32))
+    run("integer_typed_grid", np.sort(rng.choice(np.arange(-20, 21), size=12, replace=False)).astype(np.int64), rng.normal(size=40) * 12)
+    run("one_element_grid_integer_values", np.array([float(np.round(rng.normal(), 2)) + 0.5]), vi.astype(np.int64))
+    # (c) values of other shapes: the operation is element-wise whatever the shape
+    v3, _ = probes(gi, rng)
+    k3 = (len(v3) // 6) * 6
+    run("values_2d", gi, v3[:k3].reshape(-1, 6))
+    run("values_3d", gi, v3[:k3].reshape(2, -1, 3))
+    run("values_0d_in_1d", gi, v3[:1])
+    # (d) grids at the ends of the float range / with gaps whose squares leave it
+    big = np.sort(rng.uniform(-1.7, 1.7, size=int(rng.integers(2, 12)))) * 1e308
+    vb = np.concatenate([big, (big[:-1] / 2 + big[1:] / 2), rng.uniform(-1.7, 1.7, size=20) * 1e308, [0.0, 1e300, -1e300]])
+    run("grid_near_float_max", big, vb)
+    wide = np.array([-1e200, -1e160, 0.0, 1e155, 1e200]) * float(rng.choice([1.0, 0.5, 3.0]))
+    run("gaps_above_1e154", wide, np.concatenate([wide, rng.uniform(-1, 1, size=30) * 10.0 ** rng.uniform(150, 200, size=30), [1e199, -1e199, 3e154]]))
+    small = np.sort(rng.uniform(-1, 1, size=int(rng.integers(2, 12)))) * 1e-300
+    run("grid_near_float_min", small, np.concatenate([small, rng.uniform(-1, 1, size=30) * 1e-300, [0.0, 5e-324, -5e-324, 1e-310]]))
+    sub = np.arange(0, 12) * 5e-324 * float(rng.integers(1, 5))
+    run("subnormal_grid", sub, np.concatenate([sub, np.arange(0, 60) * 5e-324, [1e-300]]))
+    # (e) a result handed out earlier stays what it was when further snaps are made
+    d = int(rng.integers(1, 4))
+    grids = [np.sort(rng.normal(size=int(rng.integers(2, 30)))) for _ in range(d)]
+    a1, a2 = rng.normal(size=(int(rng.integers(1, 9)), d)) * 2, rng.normal(size=(int(rng.integers(1, 9)), d)) * 2
+    try:
+        r1 = digitize_data(a1, grids)
+        keep = np.array(r1, copy=True)
+        r2 = digitize_data(a2, grids)
+        g1 = get_closest(grids[0], a1[:, 0])
+        keepg = np.array(g1, copy=True)
+        get_closest(grids[0], a2[:, 0])
+        cnt("extra_earlier_results_rechecked")
+        if not np.array_equal(r1, keep) or not np.array_equal(g1, keepg):
+            out["violations"].append({"msg": "the array returned by an earlier snap changed when another array was snapped afterwards", "witness": {"first": keep, "first_now": r1}})
+        if r1 is r2 or np.shares_memory(r1, r2):
+            out["violations"].append({"msg": "two snaps returned arrays that share memory", "witness": {}})
+    except Exception as e:  # noqa: BLE001
+        out["violations"].append({"msg": f"digitize_data raised {type(e).__name__}: {e}", "witness": {}})
+    # (b') digitize_data on integer / float32 data: still grid elements of each column's own (float64) grid
+    for label, arr in (("digitize_integer_data", rng.integers(-3, 4, size=(6, d))), ("digitize_float32_data", (rng.normal(size=(6, d)) * 2).astype(np.float32))):
+        try:
+            dg = np.asarray(digitize_data(arr, grids))
+            cnt(f"extra_{label}")
+            for j in range(d):
+                for k, why in judge(grids[j], np.asarray(arr[:, j], dtype=np.float64), np.asarray(dg[:, j], dtype=np.float64))[:1]:
+                    out["violations"].append({"msg": f"{label} column {j}: {why}", "witness": {"grid": grids[j], "data": arr}})
+        except Exception as e:  # noqa: BLE001
+            out["violations"].append({"msg": f"{label} raised {type(e).__name__}: {e}", "witness": {"data": arr}})
+
+
 def run_case(desc, ctx):
     from black_it.utils.base import digitize_data, get_closest
 
@@ -177,6 +289,8 @@ def run_case(desc, ctx):
             out["evals"] += data.size
     except Exception as e:  # noqa: BLE001
         out["violations"].append({"msg": f"digitize_data raised {type(e).__name__}: {e}", "witness": {"shape": data.shape, "grids": grids}})
+    if desc["i"] % 4 == 1:
+        extras(rng, out, get_closest, digitize_data)
     if desc["i"] < 3:
         out["sample"] = {"grid_head": grid[:5], "grid_len": len(grid), "values_head": vals[:6], "snapped_head": np.asarray(res)[:6]}
     return out
